@@ -956,12 +956,13 @@ def _get_constraints(constraints):
                 raise ValueError('The constraint type must be "eq" or "ineq".')
             if "fun" not in constraint or not callable(constraint["fun"]):
                 raise ValueError("The constraint function must be callable.")
+            fun, args = constraint["fun"], tuple(constraint.get("args", ()))
             nonlinear_constraints.append(
-                {
-                    "fun": constraint["fun"],
-                    "type": constraint["type"],
-                    "args": constraint.get("args", ()),
-                }
+                NonlinearConstraint(
+                    lambda x, fun=fun, args=args: fun(x, *args),
+                    0.0,
+                    0.0 if constraint["type"] == "eq" else np.inf,
+                )
             )
         else:
             raise TypeError(
